@@ -14,6 +14,8 @@ Pool(ct) ==
     [] ct = 22 -> {<<0, 0, 0, 0>>, <<20, 0, 0, 2, 170, 187, 14, 0, 0, 0>>, <<14, 0, 0, 3, 1>>,
                    <<99, 0, 0, 1, 5>>, <<>>, <<24, 0, 0, 1, 0, 1, 0>>,
                    <<11, 0, 18, 52, 0, 18, 49, 0, 4, 48, 130, 1, 2>>,      \* the start of a Certificate continued in the next record
+                   EncHs([t |-> "ClientHello", ver |-> 771, random |-> Fill(3, 32), sid |-> None, ciphers |-> <<47>>, comp |-> <<0>>, ext |-> None]),
+                   EncHs([t |-> "ServerHello", ver |-> 771, random |-> Fill(4, 32), sid |-> None, cipher |-> 47, comp |-> 0, ext |-> None]) \o <<14, 0, 0, 0>>,
                    <<255, 255, 255, 255, 255, 255, 255, 255, 255, 255>>}
     [] ct = 23 -> {<<>>, <<1, 2, 3>>}
     [] ct = 24 -> {<<1, 0, 2, 170, 187>>, <<2, 0, 1, 7, 0, 0, 0>>, <<1, 0, 9>>, <<1, 0>>}
